@@ -121,6 +121,9 @@ pub fn finish(report: Report) -> i32 {
         println!("{l}");
     }
     if !report.harness_errors.is_empty() {
+        if let Ok(dir) = std::env::var("VERIF_DEBUG_DIR") {
+            let _ = std::fs::write(format!("{dir}/harness_errors_{}.json", report.property), serde_json::to_string(&report.harness_errors).unwrap_or_default());
+        }
         for h in report.harness_errors.iter().take(5) {
             eprintln!("HARNESS-ERROR {}", h);
         }
@@ -719,14 +722,26 @@ pub fn check_cellsim(property: &str, tier: &str) -> i32 {
     // worker processes that died: each already reduced to the one scenario that kills a lone process
     let mut confirmed: Vec<Value> = crashes;
     let mut per_class: BTreeMap<String, usize> = BTreeMap::new();
+    let mut attempts: BTreeMap<String, usize> = BTreeMap::new();
     let mut unconfirmed = 0;
     for c in candidates {
         let class = c["class"].as_str().unwrap_or("").to_string();
-        let k = per_class.entry(class.clone()).or_default();
-        if *k >= 3 {
+        // up to 3 confirmed findings per class; a candidate that does not reproduce alone (the
+        // worker was in a state only its history explains) does not use up a slot, but no more
+        // than 16 candidates of a class are tried
+        // (and no more than 2 per (class, program): after a defect has poisoned process-wide state,
+        // every later run of a worker fails in the same unreproducible way)
+        let sig = format!("{class}|{}|{:.60}", c["scenario"]["mode"].as_str().unwrap_or(""), c["scenario"]["prog"].as_str().unwrap_or(""));
+        let same = attempts.entry(sig).or_default();
+        if *same >= 2 {
             continue;
         }
-        *k += 1;
+        *same += 1;
+        let tried = attempts.entry(class.clone()).or_default();
+        if per_class.get(&class).copied().unwrap_or(0) >= 3 || *tried >= 24 {
+            continue;
+        }
+        *tried += 1;
         let mut c = c;
         c["sim"] = json!("cellsim");
         match proc::call(&["minimise", "cellsim"], &json!({"scenario": c["scenario"], "class": class})) {
@@ -745,13 +760,84 @@ pub fn check_cellsim(property: &str, tier: &str) -> i32 {
             .map(|ts| ts.iter().map(|t| t.as_array().map(|ops| ops.iter().map(|o| o["src"].as_str().unwrap_or("").to_string()).collect::<Vec<_>>().join("; ")).unwrap_or_default()).collect())
             .unwrap_or_default();
         c["subject_id"] = json!(format!("{} || {}", src.join(" || "), c["scenario"]["prog"].as_str().unwrap_or("")));
-        match confirm_cellsim(&c) {
-            Ok(true) => confirmed.push(c),
+        let mut verdict = confirm_cellsim(&c);
+        if matches!(verdict, Ok(false)) && c["scenario"]["threads"].as_array().map_or(0, |a| a.len()) > 1 {
+            // The worker (and the minimiser) found the failure in a process that had already run
+            // other executions; a defect that keeps process-wide state behaves differently from a
+            // cold start. Search schedules again with ONE FRESH PROCESS PER TRIAL, and keep the
+            // first explicit schedule that fails from a cold start.
+            for i in 0..64u64 {
+                let mut sc = c["scenario"].clone();
+                sc["sched_seed"] = json!(crate::prng::derive_n(seed ^ 0xC01D, "cold-research", i));
+                sc["policy"] = match i % 4 {
+                    0 => json!({"random": {"stick": 0}}),
+                    1 => json!({"random": {"stick": 10}}),
+                    2 => json!({"pct": {"depth": 2, "est_steps": 24}}),
+                    _ => json!({"pct": {"depth": 3, "est_steps": 40}}),
+                };
+                let Ok(out) = proc::call(&["single", "cellsim"], &sc) else { continue };
+                if out["violation"].as_array().map_or(false, |a| a[0].as_str() == Some(class.as_str())) {
+                    sc["policy"] = json!({"list": out["choices"]});
+                    c["scenario"] = sc;
+                    c["detail"] = out["violation"][1].clone();
+                    c["log"] = out["log"].clone();
+                    c["cold_start_research_trials"] = json!(i + 1);
+                    verdict = confirm_cellsim(&c);
+                    break;
+                }
+            }
+        }
+        match verdict {
+            Ok(true) => {
+                *per_class.entry(class.clone()).or_default() += 1;
+                confirmed.push(c)
+            }
             Ok(false) => {
                 unconfirmed += 1;
                 harness_errors.push(json!({"what": "candidate did not reproduce in a fresh process", "candidate": c}));
             }
             Err(e) => harness_errors.push(json!({"what": "replay failed", "error": e})),
+        }
+    }
+    // Findings that only showed up in workers with a history (none of their scenarios fails alone)
+    // point at process-wide state. Probe from a cold start: every shared program under a few
+    // schedules, one fresh process per trial; whatever fails there with the same class is a
+    // self-contained replay of the same defect.
+    if property == "C16" && unconfirmed > 0 {
+        let wanted: BTreeSet<String> = attempts.keys().filter(|k| !k.contains('|')).filter(|k| per_class.get(*k).copied().unwrap_or(0) == 0).cloned().collect();
+        if !wanted.is_empty() {
+            let mut probes = Vec::new();
+            for (pi, prog) in crate::cellsim::SHARED_PROGS.iter().enumerate() {
+                for i in 0..6u64 {
+                    let policy = match i % 3 {
+                        0 => json!({"random": {"stick": 0}}),
+                        1 => json!({"random": {"stick": 8}}),
+                        _ => json!({"pct": {"depth": 3, "est_steps": 40}}),
+                    };
+                    probes.push((
+                        vec!["single".to_string(), "cellsim".to_string()],
+                        json!({"sim": "cellsim", "boot_seed": hashsim::boot_seed_n(seed, 0), "key_seed": crate::prng::derive_n(seed, "probe-keys", pi as u64), "lock_policy": 0,
+                               "mode": "shared_code", "policy": policy, "prog": prog, "sched_seed": crate::prng::derive_n(seed, "probe-sched", pi as u64 * 16 + i), "threads": [[], [], []]}),
+                    ));
+                }
+            }
+            let scenarios: Vec<Value> = probes.iter().map(|p| p.1.clone()).collect();
+            for (sc, out) in scenarios.into_iter().zip(proc::call_many(probes, par)) {
+                let Ok(out) = out else { continue };
+                let Some(class) = out["violation"].as_array().and_then(|a| a[0].as_str()).map(|s| s.to_string()) else { continue };
+                if !wanted.contains(&class) || per_class.get(&class).copied().unwrap_or(0) >= 2 {
+                    continue;
+                }
+                let mut sc = sc;
+                sc["policy"] = json!({"list": out["choices"]});
+                let c = json!({"sim": "cellsim", "class": class, "scenario": sc, "detail": out["violation"][1], "log": out["log"],
+                               "subject_id": format!("cold-start probe ||  || {}", sc["prog"].as_str().unwrap_or("")),
+                               "found_by": "cold-start probe after candidates that only failed inside a worker's history"});
+                if let Ok(true) = confirm_cellsim(&c) {
+                    *per_class.entry(class).or_default() += 1;
+                    confirmed.push(c);
+                }
+            }
         }
     }
     // vacuity guard: generated (non-attack) operations are all well-typed on the pinned tree; if the
